@@ -82,6 +82,7 @@ def run_tlc(
     spec_dir: Path = SPEC,
     dfs: bool = False,
     extra: Optional[List[str]] = None,
+    sink=None,
 ) -> TlcResult:
     """Run TLC on spec/<module>.tla with config text or file ``cfg``.
 
@@ -125,30 +126,46 @@ def run_tlc(
         if extra:
             cmd += extra
         cmd += ["-config", str(cfg_path), module + ".tla"]
-        proc = subprocess.run(
-            cmd,
-            cwd=str(spec_dir),
-            env=tool_env,
-            stdout=subprocess.PIPE,
-            stderr=subprocess.STDOUT,
-            text=True,
-            timeout=timeout,
-        )
-        out = proc.stdout
+        # the output is consumed line by line: a thorough exploration prints millions of vectors, which are
+        # handed to `sink` (a streaming sampler) or collected in res.vectors; only the other lines are kept
+        res = TlcResult(ok=False, cmd=" ".join(cmd))
+        other: List[str] = []
+        proc = subprocess.Popen(cmd, cwd=str(spec_dir), env=tool_env, stdout=subprocess.PIPE, stderr=subprocess.STDOUT,
+                                text=True, bufsize=1 << 20)
+        import threading
+
+        fired: List[int] = []
+
+        def _kill() -> None:
+            fired.append(1)
+            proc.kill()
+
+        killer = threading.Timer(timeout, _kill)
+        killer.start()
+        try:
+            assert proc.stdout is not None
+            for ln in proc.stdout:
+                ln = ln.rstrip("\n")
+                if ln.startswith('"'):
+                    v = _parse_printed(ln)
+                    if v is not None:
+                        if sink is not None:
+                            sink(v, len(ln))
+                        else:
+                            res.vectors.append(v)
+                        continue
+                other.append(ln)
+                if len(other) > 400000:
+                    del other[2000:200000]
+            proc.wait()
+        finally:
+            killer.cancel()
+        if fired:
+            raise MachineryError("TLC on %s exceeded %d s" % (module, timeout))
     finally:
         shutil.rmtree(tmp, ignore_errors=True)
         # TLC leaves "states" dirs only in metadir; nothing else to clean
-    res = TlcResult(ok=False, cmd=" ".join(cmd))
     res.wall_s = time.time() - t0
-    lines = out.splitlines()
-    other: List[str] = []
-    for ln in lines:
-        if ln.startswith('"'):
-            v = _parse_printed(ln)
-            if v is not None:
-                res.vectors.append(v)
-                continue
-        other.append(ln)
     txt = "\n".join(other)
     res.raw_tail = "\n".join(other[-60:])
     m = None
